@@ -12,13 +12,16 @@ kernel; `bin/check C14 --replay` would use the default library, whose C routine 
 import os, sys, re, glob, json, time, math, random, importlib, collections, shutil
 sys.path.insert(0, os.path.dirname(os.path.dirname(os.path.abspath(__file__))))
 import vlib, asmkern
+from gen_mparams import gen_mparams
 from vlib import log
 from genlib import *
 
-LEAN_MODULES = []
-THEOREMS = []
-GEN = []
-TRUSTED = ["tools/asmkern.py: the assembly commands are re-read from the configured mpn/Makefile (.asm.o / .as.lo rules); objcopy symbol renaming; "
+LEAN_MODULES = ["MpirProofs.Props.C14"]
+THEOREMS = ["Mpir.Params.all_shipped_params_valid", "Mpir.Params.shipped_params_nonempty"]
+GEN = [gen_mparams]
+TRUSTED = ["tools/gen_mparams.py: threshold vectors are resolved by gcc from each shipped gmp-mparam.h + gmp-impl.h (regenerated every run); "
+           "lean/Mpir/Model/ParamsValid.lean: hand-collected list of the requirements the sources state on thresholds (each clause cites file:line) — necessary conditions, not proved sufficient",
+           "tools/asmkern.py: the assembly commands are re-read from the configured mpn/Makefile (.asm.o / .as.lo rules); objcopy symbol renaming; "
            "the op -> kernel map is computed from ELF relocations of the recompiled harness/ops_*.c",
            "ISA classification of kernels by disassembly mnemonics against /proc/cpuinfo flags (a misclassified kernel shows up as SIGILL = reported, not hidden)"]
 ASSUMPTIONS = ["equivalence of an assembly kernel and the C routine is differential (both against the same Lean model), not a proof about assembly text",
